@@ -7,9 +7,12 @@ CONSTANTS
   MaxLen = 1
   Fates = {"ok", "fatal"}
   MaxFail = 1
-  WorldTx = TRUE
+  WorldTx = {"W"}
+  EnsureTx = FALSE
+  ImplWR = "required"
+  CancelOn = FALSE
   RetryCount = 2
   MaxOps = 0
 VIEW ViewNoHist
-INVARIANTS TypeOK FinalEqualsSequential NoSilentDrop NoSpuriousFailure
+INVARIANTS TypeOK FinalEqualsSequential NoSilentDrop NoSpuriousFailure NoResultAfterCancel
 PROPERTIES ReadsAreSequential
